@@ -41,3 +41,45 @@ Theorem C13_defaults_refuted :
              [mkArg (s2l "x") None; mkArg (s2l "a") None; mkArg (s2l "z") None] [] [s2l "'why'"; s2l "0.0"]
   = ([mkArg (s2l "x") None; mkArg (s2l "a") (Some (s2l "int")); mkArg (s2l "z") None], [], [s2l "'why'"; s2l "5"], true).
 Proof. vm_compute. reflexivity. Qed.
+
+(* ---- the lookup of a dotted path (find_in_ast after annotate_ancestry; Model/FindAst.v is a transcription of its two nested loops
+   with their shared state, compared with the code by position on generated modules each run) --------------------------------
+   [inert search parent q cs x]: the sibling x is not the node searched for, is not an annotated assignment or class called like
+   the current query q, and -- if it is a function -- nothing is left to pop (cs = []) and no positional parameter is called q. *)
+From CDD Require FindAst FindAstProofs.
+
+(* a class attribute C.a: found, at its position, for EVERY module in which only inert siblings precede the class and the attribute *)
+Theorem C13_lookup_class_attribute : forall C a pre body post bpre y bpost,
+  forallb (FindAstProofs.inert [C; a] [] C [a]) pre = true -> str_eqb C a = false ->
+  body = bpre ++ y :: bpost -> forallb (FindAstProofs.inert [C; a] [C] a []) bpre = true -> FindAst.node_loc [C] y = Some [C; a] ->
+  FindAst.find_in_ast [C; a] (pre ++ NClass C body :: post) = FindAst.FNode [length pre; length bpre].
+Proof. exact FindAstProofs.find_attr. Qed.
+Print Assumptions C13_lookup_class_attribute.
+
+(* a positional parameter f.p of a top-level function, when only inert siblings precede f *)
+Theorem C13_lookup_parameter : forall f p pre args kw dfl bid post k,
+  forallb (FindAstProofs.inert [f; p] [] f [p]) pre = true -> FindAst.find_arg p args O = Some k ->
+  FindAst.find_in_ast [f; p] (pre ++ NFunc f args kw dfl bid :: post) = FindAst.FArg [length pre] k.
+Proof. exact FindAstProofs.find_param. Qed.
+Print Assumptions C13_lookup_parameter.
+
+(* what the conditions exclude -- the recorded findings, as facts about the faithful model: an earlier function with a parameter of
+   the same name wins (the function name is never compared); a function before the class consumes the attribute name and the
+   class is never entered (None -> sync_property's assert); keyword-only parameters are never found; a path through a parameter
+   raises *)
+Theorem C13_lookup_refuted :
+  FindAst.find_in_ast [s2l "f"; s2l "p"] [NFunc (s2l "g") [FindAstProofs.A "p"] [] [] 1; NFunc (s2l "f") [FindAstProofs.A "x"; FindAstProofs.A "p"] [] [] 2]
+    = FindAst.FArg [0%nat] 0
+  /\ FindAst.find_in_ast [s2l "C"; s2l "a"] [NFunc (s2l "g") [FindAstProofs.A "x"] [] [] 1; NClass (s2l "C") [NAnn (s2l "a") (s2l "int") None]] = FindAst.FNone
+  /\ FindAst.find_in_ast [s2l "f"; s2l "k"] [NFunc (s2l "f") [FindAstProofs.A "x"] [FindAstProofs.A "k"] [] 1] = FindAst.FNone
+  /\ FindAst.find_in_ast [s2l "f"; s2l "x"; s2l "y"] [NFunc (s2l "f") [FindAstProofs.A "x"] [] [] 1] = FindAst.FErr.
+Proof. repeat split; vm_compute; reflexivity. Qed.
+
+Example C13_lookup_examples :
+  let m := [NOther 1; NAssign (s2l "K") (s2l "1");
+            NClass (s2l "C") [NOther 2; NAnn (s2l "a") (s2l "int") (Some (s2l "5")); NFunc (s2l "run") [FindAstProofs.A "self"; FindAstProofs.A "b"] [] [] 3];
+            NFunc (s2l "f") [FindAstProofs.A "x"; FindAstProofs.A "p"] [] [s2l "1"] 4] in
+  FindAst.find_in_ast [s2l "C"; s2l "a"] m = FindAst.FNode [2%nat; 1%nat] /\ FindAst.find_in_ast [s2l "f"; s2l "p"] m = FindAst.FArg [3%nat] 1
+  /\ forallb (FindAstProofs.inert [s2l "C"; s2l "a"] [] (s2l "C") [s2l "a"]) (firstn 2 m) = true
+  /\ forallb (FindAstProofs.inert [s2l "f"; s2l "p"] [] (s2l "f") [s2l "p"]) (firstn 3 m) = true.
+Proof. vm_compute. repeat split; reflexivity. Qed.
